@@ -44,9 +44,18 @@ func c06Subtree(r *R) {
 			mu.Unlock()
 		}
 	}
+	// jobs per actor: one Loop; or a Once that has fired long before the kill plus the Loop; or those plus a second Loop
+	// (termination must clear every job of an actor, whatever state its other jobs are in)
+	jobsMode := r.Choose(3)
 	launch := func(ctx vivid.ActorContext, p *Probe) {
 		ctx.EventStream().Subscribe(ctx, c06Evt{})
+		if jobsMode >= 1 {
+			_ = ctx.Scheduler().Once(ctx.Ref(), time.Millisecond, c06Tick{Owner: p.Path}, vivid.WithSchedulerReference("o1"))
+		}
 		_ = ctx.Scheduler().Loop(ctx.Ref(), 100*time.Millisecond, c06Tick{Owner: p.Path})
+		if jobsMode >= 2 {
+			_ = ctx.Scheduler().Loop(ctx.Ref(), 150*time.Millisecond, c06Tick{Owner: p.Path}, vivid.WithSchedulerReference("l2"))
+		}
 	}
 	mk := func(name string) *Spec { return &Spec{Name: name, OnLaunch: launch, OnOther: onOther} }
 	top := mk("a")
